@@ -22,11 +22,12 @@ from .report import Check, analysis_error
 # property whose statement it falsifies.  (Findings only; an analysis error inside a dependency is noted, the dependency's own
 # check reports it.)
 DEPENDS = {
-    'C08': ['C02', 'C03', 'C04', 'C07', 'C19F'],
-    'C09': ['C02', 'C03', 'C04', 'C19F'],
-    'C10': ['C02', 'C03', 'C04', 'C19F'],
+    'C08': ['C02', 'C03', 'C04', 'C07', 'C12', 'C19'],
+    'C09': ['C02', 'C03', 'C04', 'C19'],
+    'C10': ['C02', 'C03', 'C04', 'C19'],
     'C06': ['C05'],
-    'C11': ['C04', 'C03', 'C19F'],        # C05 is evaluated inside sa.rules.c11 itself (R2)
+    'C04': ['C05'],          # a refused play that has already entered the trick corrupts the trick state
+    'C11': ['C04', 'C03', 'C19'],        # C05 is evaluated inside sa.rules.c11 itself (R2)
     'C12': ['C15'],
     'C17': ['C14', 'C15'],
     'C18': ['C14', 'C15'],
